@@ -52,4 +52,30 @@ pub fn gen(tier: &str, seed: u64, emit: &mut dyn FnMut(String)) {
         }
         emit(format!("MEM {}", hex(&b)));
     }
+    // section-layer stress on the PAT PID and on a PMT PID created by a valid PAT: (a) an endless run of multi-packet section
+    // starts that never complete, each with another version; (b) one long section start followed by an endless run of
+    // continuation packets; (c) a mix with sections that do complete.  Retained memory must level off in all of them.
+    for i in 0..(if big { 36 } else { 6 }) {
+        let npk = if big { 20000 + 2000 * i } else { 2500 + 500 * i } as usize;
+        let on_pmt = i % 2 == 1;
+        let pmt_pid = 0x30 + i as u16;
+        let mut m = Mux::new();
+        if on_pmt { let pat = section(0, 1, 0, true, &pat_body(&[(1, pmt_pid)], &mut rng)); m.psi(0, &pat, 0, 0, &mut rng); }
+        let pid = if on_pmt { pmt_pid } else { 0 };
+        let tid = if on_pmt { 2u8 } else { 0 };
+        let start = |m: &mut Mux, k: usize, len: usize, rng: &mut Rng| {
+            let mut pl = vec![0u8, tid, 0xb0 | (len >> 8) as u8, len as u8, 0, 1, 0xc1 | ((k % 32) as u8) << 1, 0, 0];
+            let body = rng.bytes(184 - pl.len()); pl.extend(body); m.data_packet(pid, true, &pl, rng); };
+        let mut k = 0usize;
+        start(&mut m, k, 1021, &mut rng);
+        while m.pkts.len() < npk {
+            k += 1;
+            match (i / 2) % 3 {
+                0 => start(&mut m, k, if rng.chance(1, 2) { 1021 } else { rng.range(200, 1021) as usize }, &mut rng),
+                1 => { let pl = rng.bytes(184); m.data_packet(pid, false, &pl, &mut rng); }
+                _ => { if rng.chance(1, 3) { start(&mut m, k, *rng.pick(&[20usize, 150, 181, 400, 1021]), &mut rng); } else { let n = rng.range(1, 184) as usize; let pl = rng.bytes(n); m.data_packet(pid, false, &pl, &mut rng); } }
+            }
+        }
+        emit(format!("MEM {}", hex(&m.bytes())));
+    }
 }
